@@ -1044,6 +1044,23 @@ func fillRes(res *verifsim.RunResult, ep *epResult) {
 	}
 	res.Counters["fs_ops"] += fsTotal
 	res.Counters["frames_written"] += int64(len(ep.frames))
+	// reach probes: one file's chunks travelling on several data streams; chunk
+	// data delivered before the file's FileBegin was written/handled
+	perFile := map[uint64]map[string]bool{}
+	for _, f := range ep.frames {
+		if perFile[f.key] == nil {
+			perFile[f.key] = map[string]bool{}
+		}
+		perFile[f.key][f.stream] = true
+	}
+	for _, m := range perFile {
+		if len(m) >= 2 {
+			res.Counters["file_striped_over_streams"]++
+		}
+		if len(m) >= 3 {
+			res.Counters["file_striped_over_3plus_streams"]++
+		}
+	}
 	if len(ep.rw.infos) > 0 {
 		res.Counters["resume_infos"] += int64(len(ep.rw.infos))
 	}
